@@ -45,6 +45,7 @@ def callee_kind(t):
     return None
 
 
+_ADAPTER = re.compile(r"(?:[A-Za-z_]\w*)?::(clone|as_ref|as_mut|deref|deref_mut|borrow|to_owned|as_deref)\(([^(),]*)\)")
 _LOCAL = re.compile(r"(?<![:.\w])[a-z_][a-z0-9_]*\b(?!\s*\(|::)")
 
 
@@ -52,7 +53,15 @@ def signature(kind, desc):
     """function-, name- and position-independent shape of a site: the kind and the operand expression with local variable
     names and compiler temporaries abstracted (callee names, field names and constants kept).  Used to recognise a reviewed
     site after a behaviour-preserving move (extracted helper, renamed local, renumbered closure)."""
-    return kind + "|" + _LOCAL.sub("$", desc)
+    d = desc
+    for _ in range(6):
+        d2 = _ADAPTER.sub(lambda m: m.group(2), d)
+        if d2 == d:
+            break
+        d = d2
+    d = _LOCAL.sub("$", d)
+    d = re.sub(r"\$(\.\d+)+", "$", d)      # positional projections of closure captures / tuples
+    return kind + "|" + d
 
 
 def key_signature(key):
@@ -855,12 +864,92 @@ def d7_macro_glue(body, site):
     return None
 
 
+def d18_index_below_len(body, site):
+    """`v[x - c]` (bounds check) or `x - c` compared: dominated by the true edge of `x <= v.len()` (c >= 1) or `x < v.len()` (c >= 0)
+    on the same collection"""
+    if site.kind != "assert:BoundsCheck":
+        return None
+    m = site.term["msg"]
+    lp = op_place(m["a"])
+    coll = None
+    if lp is not None and not lp["pr"]:
+        ds = body.defs_of(lp["l"])
+        if len(ds) == 1 and ds[0][3].get("k") == "Un" and ds[0][3].get("op") == "PtrMetadata":
+            coll = _root_place(body, ds[0][3]["a"])
+    if coll is None:
+        return None
+    # index operand: x, or (x - c).0
+    ip = op_place(m["b"])
+    x, c = None, 0
+    if ip is not None:
+        cur = ip
+        for _ in range(4):
+            ds = body.defs_of(cur["l"]) if not cur["pr"] or cur["pr"] == [".0"] else []
+            if len(ds) != 1:
+                break
+            rv = ds[0][3]
+            if rv.get("k") == "Use" and "p" in rv["o"]:
+                cur = rv["o"]["p"]
+                continue
+            if rv.get("k") == "Bin" and rv["op"] in ("SubWithOverflow", "Sub") and isinstance(const_val(rv["b"]), int):
+                x = _root_place(body, rv["a"])
+                c = const_val(rv["b"])
+            break
+        if x is None:
+            x = _root_place(body, m["b"])
+    if x is None:
+        return None
+    for i, blk in enumerate(body.blocks):
+        t = blk["term"]
+        if t["k"] != "Sw":
+            continue
+        sp = op_place(t["o"])
+        if sp is None or sp["pr"]:
+            continue
+        ds = body.defs_of(sp["l"])
+        if len(ds) != 1 or ds[0][3].get("k") != "Bin":
+            continue
+        rv = ds[0][3]
+        tt = _bool_switch_targets(t)
+        if tt is None:
+            continue
+        for a, b, flip in ((rv["a"], rv["b"], False), (rv["b"], rv["a"], True)):
+            op = rv["op"]
+            if flip:
+                op = {"Lt": "Gt", "Le": "Ge", "Gt": "Lt", "Ge": "Le"}.get(op, op)
+            ap = _root_place(body, a)
+            if ap is None or not _same_place(ap, x):
+                continue
+            # b must be the length of the same collection
+            bp = op_place(b)
+            if bp is None or bp["pr"]:
+                continue
+            bd = body.defs_of(bp["l"])
+            if len(bd) != 1 or bd[0][3].get("k") != "Call" or not str(bd[0][3].get("inst") or bd[0][3].get("f") or "").endswith("::len"):
+                continue
+            lc = _root_place(body, bd[0][3]["args"][0])
+            if not _same_place(lc, coll):
+                continue
+            safe = None
+            if op == "Le" and c >= 1:
+                safe = tt[0]
+            elif op == "Lt" and c >= 0:
+                safe = tt[0]
+            elif op == "Gt" and c >= 1:
+                safe = tt[1]
+            elif op == "Ge" and c >= 0:
+                safe = tt[1]
+            if safe is not None and body.dominates(safe, site.bb) and len(body.pred[safe]) == 1:
+                return "D18 index %s - %d below the length of %s by a dominating comparison" % (place_str(x), c, place_str(coll))
+    return None
+
+
 RULES = [d1_guarded_receiver, d2_valid_constant, d3_bounded_index, d4_guarded_sub, d5_counter_increment, d8_constant_arithmetic, d7_macro_glue]
 
 
 def discharge(prog, sites, extra_rules=()):
     rules = RULES + [d3b_constant_range, d3c_fixed_vec, d3d_first_of_nonempty, d12_array_from_slice, d13_captures_group0,
-                     d14_constant_divisor, d1b_nonempty, d15_contains_key, d17_nonempty_range,
+                     d14_constant_divisor, d1b_nonempty, d15_contains_key, d17_nonempty_range, d18_index_below_len,
                      d9_default_config(prog)] + list(extra_rules)
     for s in sites:
         body = prog.body(s.fn)
